@@ -225,6 +225,11 @@ def make_sessions(ctx, n):
 TRACE_CONSTS = "  MaxN = 2\n  MaxN2 = 0\n  Vals = {1}\n  CellStrs = {}\n  MaxCols = 0\n  MaxRows = 2\n  Kinds = {\"one\"}\n  Mutations = {}"
 
 
+def _replay_item(ctx, i, item):
+    replay_doc(ctx, item[1], item[0])
+    ctx.traces += 1
+
+
 def run(ctx):
     ctx.rule = ("Coincidence.tla (Convert: cell-wise serialisation with a separator; CountUnique; Combine) is model-checked for all "
                 "multiplicity patterns up to a size bound, all pairs of small samples and all small tables with missing cells against "
@@ -234,13 +239,16 @@ def run(ctx):
                 "validated by TraceCoincidence.tla. Non-trivial = some element repeated.")
     ctx.assumptions = ["cells do not contain the join characters '.'/'_' (quantifier of the property)", "floats snapped to rationals with denominator <= 1e6 (true denominators <= 1640)"]
     n = 0
-    for name, text in model_runs(ctx.quick):
-        res = run_cfg(ctx, "MCCoincidence", name, text)
-        for doc in ctx.sample([d for d in res.printed if "kind" in d], 40000):
-            if "kind" in doc:
-                n += 1
-                replay_doc(ctx, doc, n)
-                ctx.traces += 1
+    runs = model_runs(ctx.quick)
+    results = ctx.mc_batch("MCCoincidence", [(name, text, None) for name, text in runs], parallel=3, workers=5, timeout=2400)
+    for name, text in runs:
+        res = results[name]
+        items = []
+        for doc in ctx.sample([d for d in res.printed if "kind" in d], 60000):
+            n += 1
+            items.append((n, doc))
+        res.printed = []
+        ctx.parallel(items, _replay_item, chunk=500)
     ctx.exhaustive = True
     sessions = make_sessions(ctx, 60 if ctx.quick else 600)
     verd = tcm.validate(ctx, "TraceCoincidence", [s for s in sessions if not s.get("big")], constants=TRACE_CONSTS, invariants=("PcExact", "InUnitInterval", "JoinInjective"))
